@@ -957,6 +957,21 @@ def fam_conc(tier: str, rng: random.Random, isasync: bool = False) -> Iterator[d
                             d3 = [Op("call", 2, 1, a) for a in calls3]
                         yield Prog(fns, cons, [], cls, obj, [d1, d2, d3], tag="conc-{}-{}".format(variant, "async" if isasync else "thread"))
     if not isasync:
+        # two threads construct instances of the same class at the same time (__init__ / __new__ kind constructors): the
+        # check of one construction says nothing about the other
+        for kind in ("init", "new"):
+            for copy2 in (0, 1):
+                for copy3 in (0, 1):
+                    # both constructors leave their object broken: both constructions must be refused, however the two
+                    # checks interleave
+                    cons = [Con("inv", "default", False, INV_TRUTH)]
+                    out = [RetV(0)] * 3 if kind == "init" else [RetV(101)] * 3
+                    fns = [Fn(kind, 1, False, [kind], out=out, setst=2)]
+                    objs = [{"cls": 1, "st0": 0}, {"cls": 1, "st0": 0}]
+                    d1 = [Op("spawn", 2, 0, copy2), Op("spawn", 3, 0, copy3)]
+                    d2 = [Op("call", 1, 1, 1)]
+                    d3 = [Op("call", 1, 2, 1)]
+                    yield Prog(fns, cons, [], [Cls([1])], objs, [d1, d2, d3], tag="conc-ctor-" + kind)
         # loop-less worker threads running in copies of the context of an asyncio TASK that has run contracted code
         for calls3 in ([2], [2, 1], [1, 2]):
             for variant in ("func", "method"):
